@@ -258,13 +258,17 @@ CHECKS['C02'].update({
             "and C02path_glob (with `**`: zero or more whole visible pieces, separator discipline, trailing-separator rule); every excluded "
             "case (D1p repeated-group guards, D3p `$` before a final newline, D8 `**/`, nullable segments) is a hypothesis with a "
             "decide+kernel counterexample showing it is forced. Segment level: compSeg_start_sem (M(compSeg g) a b <-> Pat.L g a b and no '/' "
-            "consumed). The building blocks print to exactly the source constants (a changed constant breaks a proof). Tie: regex-TEXT equality "
+            "consumed). C02_faithful_globfree / _glob: the same two statements for the regex the FAITHFUL PORT of WcParse emits on the printed "
+            "pattern (pass_print_path: print-then-parse induction through the path-mode pass, `/` branch, `**` branch), and parsePath_print (the "
+            "strict path reader inverts the printer). The building blocks print to exactly the source constants (a changed constant breaks a proof). Tie: regex-TEXT equality "
             "WcParse vs the faithful Lean port (K1), AST equality faithful port vs compPath on grammar patterns and every short string the strict "
             "reader accepts (K1'-path), regex semantics (K2). Search: executable path specification vs globmatch/globfilter/compile, plus the "
             "one-piece-per-segment theorem used as an oracle on the real code (nothing but a written separator matches '/').",
     'note': TB + "PARTIAL: `!(...)` inside path segments and MATCHBASE are compiled by compPath and tied by K1' but excluded from the theorems "
-            "(negFree); Windows rules are sampled (K1 under FORCEWIN). The link faithful port <-> compPath is checked on sampled patterns, not "
-            "proved. Known findings KF-D1p (guards re-tested in repeated groups), KF-D3p ($ before a final newline).",
+            "(negFree); Windows rules are sampled (K1 under FORCEWIN). The link faithful port <-> compPath is PROVED for printed path patterns "
+            "(pass_print_path, C02_faithful_globfree / _glob in Properties/C02faithful.lean: str patterns, single separators, no adjacent "
+            "globstars, no REALPATH/NODOTDIR) and sampled beyond (K1'-path). Known findings KF-D1p (guards re-tested in repeated groups), "
+            "KF-D3p ($ before a final newline).",
     'technique': "Lean 4 compiler-correctness theorem for a tidy path-mode compiler (structural induction, fragment lemmas) + generated-constant "
                  "render proofs + text/AST correspondence + path-spec and piece-count search",
 })
